@@ -13,6 +13,54 @@ BASELINE = ("cd /repo && /venv/bin/python -m pytest -ra -q -p no:cacheprovider "
             "--timeout=900 --continue-on-collection-errors")
 
 
+PBT = "property-based testing (Hypothesis, generated programs)"
+TECHNIQUE = {
+    "C01": PBT + ": differential against a NumPy reference model with "
+           "forward error bounds; generated C compiled and run",
+    "C02": PBT + " + exhaustive enumeration of slices/reshapes: pointwise "
+           "reference interpreter of index lambdas vs NumPy semantics",
+    "C03": PBT + " + exhaustive operator x dtype x shape tables: "
+           "differential against NumPy's shape/dtype/acceptance",
+    "C04": PBT + ": algebraic laws of ==/hash under rebuild, single-field "
+           "mutation, pickling and child interpreters",
+    "C05": PBT + " over transformation pipelines: metamorphic (outputs "
+           "before/after by a reference evaluator; input graph unchanged)",
+    "C06": PBT + ": metamorphic (einsum rewrites preserve values under a "
+           "reference evaluator)",
+    "C07": PBT + ": metamorphic (tagged vs untagged variant of one program, "
+           "compiled and run)",
+    "C08": PBT + " + stateful schedule exploration: generated multi-rank "
+           "programs run under a simulated MPI whose schedule tree is "
+           "walked exhaustively (DFS) up to a budget; reference model",
+    "C09": PBT + ": validity predicates over every rank's partition and "
+           "cross-rank agreement under a simulated MPI; hash-seed children",
+    "C10": "fault injection: every single fault at every message of "
+           "generated programs (exhaustive), sampled pairs, partition-table "
+           "faults; oracle = documented diagnostic or correct completion",
+    "C11": PBT + ": validity predicate decided per program with ISL "
+           "(every subscript within bounds) + dynamic red-zone differential",
+    "C12": PBT + ": round trip (outline/inline) and differential against a "
+           "reference evaluator / NumPy",
+    "C13": PBT + " over graph families: invariants on instrumented mappers "
+           "(visit counts, sharing, reach) and a substitution oracle",
+    "C14": PBT + ": differential (generated NumPy-like source executed vs "
+           "NumPy's own evaluation)",
+    "C15": PBT + " with adversarial name pools: metamorphic (renamed vs "
+           "plainly named program) + validity predicates on generated names",
+    "C16": PBT + " + exhaustive enumeration of affine-form pairs: "
+           "differential against coefficient vectors / NumPy at 36 sizes, "
+           "one compiled kernel for all sizes",
+    "C17": PBT + ": differential across child interpreters (hash seeds, "
+           "allocation histories), byte comparison of generated artefacts",
+    "C18": PBT + ": injectivity/stability laws of persistent keys under "
+           "single-component mutation, layouts, histories, child processes",
+    "C19": PBT + " + enumeration of API-built and near-miss index lambdas: "
+           "round trip (re-interpretation must equal the lambda pointwise)",
+    "C20": PBT + " over graph families: analyses recomputed by a reflective "
+           "walk of the graph (reference model)",
+}
+
+
 def main() -> None:
     checks = []
     na = []
@@ -24,7 +72,8 @@ def main() -> None:
                        "reason": "check not built yet (work in progress; "
                                  "design in DESIGN.md section 5)"})
             continue
-        m = getattr(mod, "MANIFEST", {})
+        m = dict(getattr(mod, "MANIFEST", {}))
+        m.setdefault("technique", TECHNIQUE.get(pid))
         checks.append({
             "property_id": pid,
             "quick_cmd": f"./check {pid} --tier quick",
@@ -38,9 +87,9 @@ def main() -> None:
                 "design_ref": f"DESIGN.md 5 ({pid})",
             },
             "level_note": m.get("note", "; ".join(mod.ASSUMPTIONS)),
-            "technique": m.get("technique",
-                               "property-based testing (Hypothesis) against a "
-                               "NumPy reference"),
+            "technique": m.get("technique") or (
+                "property-based testing (Hypothesis) against a NumPy "
+                "reference"),
         })
     man = {
         "version": 1,
